@@ -17,8 +17,8 @@ READY = True
 CLAIM = {
     "text": "Lean theorems, re-proved on every run by `decide` over tables the translator regenerates from cli.py and exceptions.py (the space is finite, so this is a "
             "complete proof, not a sample): every `args.<attr>` a handler reads is a dest its sub-command or the global parser defines; every exception class the library "
-            "call in a try block can raise for a rejected input (the documented families incl. JSONPathNameError, and the two undecodable-document errors) is caught with "
-            "exit status 1, one line on stderr and no traceback, and re-raised exactly under --debug; each handler is installed by one sub-command. Output faithfulness for "
+            "call in a try block can raise for a rejected input (the documented families incl. JSONPathNameError, and the undecodable-document errors - malformed JSON, bytes that are not text, a number too long for int() - with the built-in class hierarchy translated too, so `except ValueError` is known to catch them) is caught with "
+            "exit status 1, one line on stderr and no traceback, and re-raised exactly under --debug; an expression file is read inside a try block (file_reads_guarded); each handler is installed by one sub-command. Output faithfulness for "
             "accepted inputs - every option combination of each sub-command, expression inline or from a file, output to stdout or a file, stdin input - is tied by running "
             "the real main() in-process and comparing with the corresponding library call.",
     "note": "Trusted: Lean kernel; the translator harness/tables.py (Python ast; fails closed); argparse, the file system and text encodings of the OS; the model starts after "
